@@ -68,6 +68,23 @@ StepFrom(st, ugs, evs, j, n, prog) ==
        THEN j ELSE StepFrom(st2, ugs, evs, j + 1, n, prog)
 UnitaryOnly(c, gs) == SelectSeq(gs, LAMBDA g : GateCls(c.inp, g.v) \notin {"idle", "busy"} /\ Mat(g.v, CArgs(g)).has)
 
+\* hook H2: the discovery walk, event by event.  The walker meets the gate statements in flat order; before each it has
+\* a trace open or not and a number of subcircuits closed.  The expected sequence is the fold of the discovery machine
+\* (P opens, M closes what is open, G changes nothing) over the flat events; a rejected program stops the walk, so the
+\* recorded events must be a PREFIX of the expected ones, and the whole sequence when the program is executed.
+RECURSIVE DiscFold(_, _, _, _)
+DiscFold(flat, j, cur, n) ==
+  IF j > Len(flat) THEN <<>>
+  ELSE <<[gate |-> flat[j].g.v, open |-> cur, closed |-> n]>>
+       \o (CASE flat[j].t = "P" -> DiscFold(flat, j + 1, TRUE, n)
+              [] flat[j].t = "M" -> DiscFold(flat, j + 1, FALSE, IF cur THEN n + 1 ELSE n)
+              [] OTHER -> DiscFold(flat, j + 1, cur, n))
+DiscoverTraceBad(obs, flat, complete) ==
+  LET exp == DiscFold(flat, 1, FALSE, 0) IN
+  \/ Len(obs) > Len(exp)
+  \/ \E j \in DOMAIN obs : j <= Len(exp) /\ obs[j] # exp[j]
+  \/ (complete /\ Len(obs) # Len(exp))
+
 Count(s, v) == Cardinality({ j \in DOMAIN s : s[j] = v })
 ReadoutsOfSub(c, k) ==
   LET RECURSIVE Pick(_)
@@ -93,6 +110,9 @@ Clauses2(c) ==
   \cup F("accept_iff", xs /\ valid /\ o.cls # "timeout" /\ ~ovl /\ (ok # disc.accept))
   \cup F("rule_named", xs /\ valid /\ ~ovl /\ ~disc.accept /\ o.cls = "jaqal_error" /\ o.family \notin disc.rules)
   \cup F("n_subcircuits", xs /\ valid /\ shouldRun /\ ok /\ Len(o.subs) # Len(disc.pairs))
+  \* (trace validation of the discovery walk through hook H2; sites where exactly one discovery walk is recorded)
+  \cup F("discover_trace", c.site \in {"run", "run_ovr"} /\ valid /\ o.hooked /\ o.cls \in {"ok", "jaqal_error"} /\
+            DiscoverTraceBad(o.discover, Flat(tree), ok))
   \* ---- C13
   \cup F("reject_iff_overlap", xs /\ valid /\ o.cls # "timeout" /\
             ((ovl /\ ok) \/ (ovl /\ o.cls = "jaqal_error" /\ o.family \notin ({"overlap"} \cup disc.rules))))
